@@ -213,6 +213,18 @@ func genSigOps(r *rand.Rand, n int) []string {
 			}
 			out = append(out, fmt.Sprintf("sig.encode %d %s %s", ca, pick().String(), pick().String()))
 		}
+		if i%13 == 10 { // a well-formed signature key whose kty member is missing, zero, null or another type's: no implementation
+			a2 := sigAlgs[(i/13)%len(sigAlgs)]
+			ktyOverride = []string{"omit", "int:0", "nil", "int:4", "u8:0", "int:3"}[(i/13/len(sigAlgs))%6]
+			var t string
+			if a2 == iana.AlgorithmEdDSA {
+				t = genEdKey(r).tokens(r, (i/13)%3, nil)
+			} else {
+				t = genEcScalar(r, a2).tokens(r, (i/13)%4, nil)
+			}
+			ktyOverride = ""
+			out = append(out, "key.factory Signer "+t, "key.factory Verifier "+t, "sig.verifierkey "+t, fmt.Sprintf("sig.sign %s %s | same", hx(randBytes(r, 5)), t))
+		}
 		alg := sigAlgs[r.Intn(len(sigAlgs))]
 		data := randBytes(r, msgLen(r, i%40 == 0))
 		if i%9 == 4 { // sizes at which a buffered / pre-hashed implementation would change gear
